@@ -225,32 +225,37 @@ def lemma_classic_wf_list(ds):
 
 
 # ---- the budget invariant and the assertion --------------------------------------------------------------------------
+# The invariants below roughly triple the work for best_layout; they serve C05 only.  The driver switches them off for the
+# other properties that best_layout serves (PVF_LAYOUT_ZONE=0); the lemmas above are verified in every run of the family.
+import os as _os  # noqa: E402
+ZONE_ON = _os.environ.get('PVF_LAYOUT_ZONE', '1') != '0'
 BL = C.fns['prettyprinter.layout:best_layout']
-BL.ghost.update({
-    'cl': ('Bool', 'classic(norm(doc)) and nnn(norm(doc)) and mode is BREAK_MODE'),     # scope of this part of the proof: the NORMAL FORM is classic
-    'zg': ('Bool', 'False'),      # a flat decision has been recorded
-    'cg': ('Int', '0'), 'ig': ('Int', '0'), 'awg': ('Int', '0'), 'mnlg': ('Int', '0'),   # column, indentation, available width, min_nesting_level at it
-})
-_H = 'implies(cl and top_flat(triplestack), '
-from pvf.pyvc.contract import clauses  # noqa: E402
-BL.loops[0].inv = list(BL.loops[0].inv) + clauses('Z', [
-    ('classic', 'implies(cl, classic_stack(triplestack) and nnn_stack(triplestack) and shape(triplestack))'),
-    ('zone-decision', _H + 'zg and outcol >= cg and awg - (outcol - cg) >= 0 and awg == min(width - cg, ig + RW - cg) and mnlg == min(cg, ig))'),
-    ('zone-entries', _H + 'zone(triplestack, ig))'),
-    ('line-budget', _H + 'fits_stack(awg, SMART, mnlg, awg - (outcol - cg), triplestack))'),
-])
-BL.loops[0].ghost_back = list(BL.loops[0].ghost_back) + ['''
-if cl and isinstance(doc, Group):
-    if mode is FLAT_MODE:
-        # a group inside the content of a flat group: what the enclosing decision verified covers this decision
-        lemma_mw_free_stack(awg, available_width, SMART, mnlg, awg - (outcol - cg), triplestack[:-1] + [(indent, FLAT_MODE, doc.doc)])
-        lemma_easier_stack(available_width, SMART, mnlg, min_nesting_level, awg - (outcol - cg), available_width,
-                           triplestack[:-1] + [(indent, FLAT_MODE, doc.doc)])
-        assert triplestack[-1][1] is FLAT_MODE
-    elif triplestack[-1][1] is FLAT_MODE:
-        zg = True
-        cg = outcol
-        ig = indent
-        awg = available_width
-        mnlg = min_nesting_level
-''']
+if ZONE_ON:
+    BL.ghost.update({
+        'cl': ('Bool', 'classic(norm(doc)) and nnn(norm(doc)) and mode is BREAK_MODE'),     # scope of this part of the proof: the NORMAL FORM is classic
+        'zg': ('Bool', 'False'),      # a flat decision has been recorded
+        'cg': ('Int', '0'), 'ig': ('Int', '0'), 'awg': ('Int', '0'), 'mnlg': ('Int', '0'),   # column, indentation, available width, min_nesting_level at it
+    })
+    _H = 'implies(cl and top_flat(triplestack), '
+    from pvf.pyvc.contract import clauses  # noqa: E402
+    BL.loops[0].inv = list(BL.loops[0].inv) + clauses('Z', [
+        ('classic', 'implies(cl, classic_stack(triplestack) and nnn_stack(triplestack) and shape(triplestack))'),
+        ('zone-decision', _H + 'zg and outcol >= cg and awg - (outcol - cg) >= 0 and awg == min(width - cg, ig + RW - cg) and mnlg == min(cg, ig))'),
+        ('zone-entries', _H + 'zone(triplestack, ig))'),
+        ('line-budget', _H + 'fits_stack(awg, SMART, mnlg, awg - (outcol - cg), triplestack))'),
+    ])
+    BL.loops[0].ghost_back = list(BL.loops[0].ghost_back) + ['''
+    if cl and isinstance(doc, Group):
+        if mode is FLAT_MODE:
+            # a group inside the content of a flat group: what the enclosing decision verified covers this decision
+            lemma_mw_free_stack(awg, available_width, SMART, mnlg, awg - (outcol - cg), triplestack[:-1] + [(indent, FLAT_MODE, doc.doc)])
+            lemma_easier_stack(available_width, SMART, mnlg, min_nesting_level, awg - (outcol - cg), available_width,
+                               triplestack[:-1] + [(indent, FLAT_MODE, doc.doc)])
+            assert triplestack[-1][1] is FLAT_MODE
+        elif triplestack[-1][1] is FLAT_MODE:
+            zg = True
+            cg = outcol
+            ig = indent
+            awg = available_width
+            mnlg = min_nesting_level
+    ''']
